@@ -21,7 +21,7 @@ base = json.load(open("/root/.vp/BASELINE.json"))
 want = set(base["stable_pass"])
 out = os.path.join("/dev/shm", "baseline-%d.xml" % os.getpid())
 cmd = ["/venv/bin/python", "-m", "pytest", "-q", "-p", "no:cacheprovider", "--timeout=900",
-       "--continue-on-collection-errors", "--junitxml=" + out] + (["-n", n, "--ignore=contrib/test_swift_smoke.py"] if n != "0" else []) + extra
+       "--continue-on-collection-errors", "--junitxml=" + out] + (["-n", os.environ.get("BASELINE_N", n), "--ignore=contrib/test_swift_smoke.py"] if n != "0" else []) + extra
 env = dict(os.environ)
 env.pop("DULWICH_VERIF", None)
 env["PYTHONPATH"] = d
